@@ -81,6 +81,7 @@ MPS_DEFS = {
     "c16mps": [("bbb", 20), ("tears", 24)],
     "c16mp0": [],
     "c16mpx": [("c16nr", 4)],
+    "c16mpz": [("bbb", 0), ("tears", 0)],
 }
 
 
